@@ -72,8 +72,13 @@ def run(ctx):
     for i in range(n):
         g = refgrammar.Gen(rng, kws)
         lex, lib = g.library()
-        cases.append({'kind': 'library', 'text': refgrammar.spell(lex), 'expected': 'OK ' + rustdebug.canonical(refgrammar.render(lib)),
-                      'feats': frozenset(g.features)})
+        expected = 'OK ' + rustdebug.canonical(refgrammar.render(lib))
+        cases.append({'kind': 'library', 'text': refgrammar.spell(lex), 'expected': expected, 'feats': frozenset(g.features)})
+        # "each in many concrete spellings": the same library with the letter case of every keyword occurrence and the
+        # layout and comments of every gap chosen at random (identifiers as written: the tree holds their spelling)
+        from .c08 import respell
+        cases.append({'kind': 'library-respelled', 'text': respell(rng, lex, {'kw', 'pk', 'trivia', 'endif', 'hex'}), 'expected': expected,
+                      'feats': frozenset(g.features) | {'respelled'}})
     reqs = ['parse ' + core.hexs(c['text']) for c in cases]
     impl = core.run_lines(core.VH, reqs, jobs=12)
     model = core.run_lines(core.PLCDRV, reqs, jobs=12) if ctx.model_available else [None] * len(cases)
